@@ -118,6 +118,16 @@ CLAIMS = {
         note="sampled vertices are not compared (numpy/scipy); relies on the tracer frame condition "
              "(AST scan) that the sampler depends only on the captured geometry",
         ref="§4 C11"),
+    "C12": dict(
+        text="In ARC-LENGTH terms for constant-speed curves: the real parametric() sample-count arithmetic "
+             "and the real _filter_segments() loop run on a stub curve with symbolic path length L; z3 "
+             "shows for every L (N=2..40 oversampled points, three resolutions, both modes) that the "
+             "path ends exactly at L, vertices advance, no segment exceeds 1.12 resolution units and "
+             "every inner segment is at least 0.9; halving the resolution never gives fewer segments; "
+             "a units switch rescales the resolution by 25.4 and round-trips.",
+        note="numpy array primitives of the filter replaced by list versions; chord lengths of "
+             "curved shapes, the chord-error bound and non-constant-speed shapes are NOT decided",
+        ref="§4 C12"),
     "C07": dict(
         text="Inductive step of I7: after any of 96 call shapes from an arbitrary consistent state "
              "(symbolic feed, power, temperatures, E parameter, tool number) every state property "
@@ -135,8 +145,6 @@ CLAIMS = {
 }
 
 NOT_APPLICABLE = {
-    "C12": "segment lengths come from numpy trig and ndarray filtering; cannot be kept symbolic "
-           "without replacing numpy by our own model",
     "C14": "the substance (bytes reaching files/streams, flush/teardown, io objects, the file system) lives "
            "in C-implemented io; with stubbed streams only the writer-list bookkeeping would remain",
     "C16": "property is about real thread schedules (threading.Event, reader thread, polling); no "
